@@ -8,7 +8,7 @@ import (
 
 // H_C01_LeaseSet2: ReadLeaseSet2 -> Bytes on the LeaseSet2 shape grid (destination types, offline block, options region, key lengths, lease counts, trailing bytes); all content symbolic.
 //
-//verif:props C01 C03
+//verif:props C01 C03 C04
 //verif:witness accepted
 func H_C01_LeaseSet2() {
 	shapes := ls2Shapes()
